@@ -3,6 +3,8 @@
 // (a) the change log (history buffer) behind syncer.VerifNewHistoryBuffer against an explicit list
 // model: record / reset / restart histories, RecordsFrom probed on every window edge +-1 after every
 // step, next index across a restart; one recorder with concurrent readers under the race detector.
+// (a') two writers (Record / ResetWithIndex) on one buffer with every kv.Save of the index parked at a
+// gate: both start orders, all release orders; window oracle on the live buffer, restart rule after.
 // (b) the real sync path with pd's code on both sides: two harness implementations of the exported
 // syncer.Server interface, pdpb.PD/SyncRegions served on a loopback gRPC server by the leader's
 // RegionSyncer.Sync, the follower started with StartSyncWithLeader; full-sync and incremental
@@ -21,7 +23,7 @@ import (
 
 func main() {
 	r := ev.New("C16", "exploration")
-	r.Rule("history buffer: one evaluation per history = capacity from {1,2,3,7,100,101,1000} x 2-12 steps of record(n) / ResetWithIndex(j below, inside, at the edge of, far above the window) / restart (new buffer on the same store), n chosen around the capacity and around the flush interval, every step followed by RecordsFrom on every window edge +-1 (distinct = capacity x sequence of step classes: fill below/exactly/over capacity, reset class, restart capacity); concurrent rounds (distinct = capacity x length). sync path: one evaluation per scenario phase = leader region set size from {0,1,99,100,101,199,200,201,250,1000} x branch (full sync / incremental from the log) x leaders (all, none, mixed) x flow statistics, then bursts of changes (leader transfer, conf change, split, merge, flow) through RunServer's notifier, then disconnect + changes + reconnect (distinct = those parameters)")
+	r.Rule("history buffer: one evaluation per history = capacity from {1,2,3,7,100,101,1000} x 2-12 steps of record(n) / ResetWithIndex(j below, inside, at the edge of, far above the window) / restart (new buffer on the same store), n chosen around the capacity and around the flush interval, every step followed by RecordsFrom on every window edge +-1 (distinct = capacity x sequence of step classes: fill below/exactly/over capacity, reset class, restart capacity); concurrent rounds (distinct = capacity x length); two writers under the gate scheduler: records up to a flush point x (ResetWithIndex far ahead / inside the window | records across another flush point) x both start orders x every release order of the parked index saves (distinct = case x start order x released sequence). sync path: one evaluation per scenario phase = leader region set size from {0,1,99,100,101,199,200,201,250,1000} x branch (full sync / incremental from the log) x leaders (all, none, mixed) x flow statistics, then bursts of changes (leader transfer, conf change, split, merge, flow) through RunServer's notifier, then disconnect + changes + reconnect (distinct = those parameters)")
 	r.Assume("the history buffer is driven through the build-tag guarded hooks VerifNewHistoryBuffer/Record/RecordsFrom/ResetWithIndex/NextIndex on an in-memory kv.Base; no storage faults are injected; reset indexes stay below 2^40")
 	r.Assume("sync path: both ends are pd's RegionSyncer over a loopback gRPC connection; the two syncer.Server implementations are harness code configured like the default server (region storage on LevelDB in a temp dir, use-region-storage on); the leader's region set does not change while a full synchronisation runs; changes pushed through the notifier always carry a leader (a heartbeat always has one)")
 	r.Assume("completion is detected by polling (leader answered the request, follower's next index reached the end of the last captured message); a 90 s watchdog per wait gives 'inconclusive', never a verdict")
@@ -30,6 +32,7 @@ func main() {
 	srv.Quiet()
 	bufferPhase(r, rng)
 	concurrentBufferPhase(r, rng)
+	twoWriterBufferPhase(r, rng)
 	syncPhase(r, rng)
 	if r.Thorough() {
 		realServersPhase(r, rng)
